@@ -15,8 +15,8 @@ from vf.util import closure_has_zero, tally_ops, tally_prog
 
 PROPERTY = "C02"
 WORKERS = {"quick": 16, "thorough": 16}
-CASES = {"quick": 400, "thorough": 25000}
-TIME = {"quick": 55, "thorough": 1200}
+CASES = {"quick": 400, "thorough": 2400}
+TIME = {"quick": 55, "thorough": 240}
 CASE_TIMEOUT = 120
 TECHNIQUE = "runtime monitoring: rewrite recorder hooked on every _simplify_down/_simplify_up/_lower keeps before/after expressions; each fired rewrite and each phase (raw/simplified/lowered/fused) is evaluated by the instrumented scheduler and compared with the NumPy mirror; fused tasks' dependency keys are compared with the un-fused member layers"
 RULE = (
